@@ -474,7 +474,7 @@ func HarnessC15_Reset() {
 // the empty queue, compared with a flat slice model at every step.
 func HarnessC15_History() {
 	vfBound("operations", 4)
-	vfLoopBound(10)
+	vfLoopBound(48)
 	size := vfInt("ps", 9, 24)
 	q := NewPacketQueue(func() int { return size })
 	var model []byte
